@@ -363,7 +363,7 @@ func init() {
 		Rule: "real janitor gated at EvictionNeeded / Stats.Add(cache_evict); seeded cases: L in {10,100,1000}, n in {L-1,L,L+1,2L,10L}, EvictFraction in {default,0.01,0.1,0.5,0.51,1}, strategy {MostExpired,LRU,LFU}, " +
 			"trigger {none,count breach,EvictionNeeded=true once,HeapInUseSoftLimit=1,count+heap}, seeded access history; after exactly one eviction cycle the amount, the cache_evict metric and the strategy order " +
 			"(max rank of removed <= min rank of kept) are judged; distinct_nontrivial = distinct (backend,strategy,trigger,L,n,fraction) cells in which an eviction was due",
-		Required:    []string{"converge.trials", "cases.with_long_expired", "cases.no_trigger", "cases.count", "cases.needed", "cases.heap", "evictions.judged", "order.pairs_checked", "strategy.MostExpired", "strategy.LRU", "strategy.LFU", "lfu.heavily_served_cases", "keys.colliding_pairs", "cases.expireall_after_access_history"},
+		Required:    []string{"converge.trials", "cases.with_long_expired", "cases.no_trigger", "cases.count", "cases.needed", "cases.heap", "evictions.judged", "order.pairs_checked", "strategy.MostExpired", "strategy.LRU", "strategy.LFU", "lfu.heavily_served_cases", "keys.colliding_pairs", "cases.expireall_after_access_history", "reads.stale_serves_counted"},
 		Assumptions: []string{"HeapInuse of the child process exceeds 1 byte; wall clock strictly advanced between LRU reads (spin)"},
 		Timeout:     func(string) time.Duration { return 45 * time.Minute },
 	})
@@ -611,6 +611,25 @@ func c12Case(b *Batch, idx int) {
 		b.R.Count("cases.expireall_after_access_history", 1)
 		cell += "/expireall-after-reads"
 		w["cell"] = cell
+		// the expired entries keep being served as stale values (that is what Failover hands out during an update):
+		// these serves count like any other
+		more := rng.Intn(2*n + 1)
+		seq := float64(4 * n)
+		for i := 0; i < more; i++ {
+			k := keys[rng.Intn(n)]
+			advanceClock()
+			if _, err := be.Read(bg, []byte(k)); errClass(err) != "expired" {
+				fail("read", fmt.Sprintf("stale read: %v", err))
+			}
+			advanceClock()
+			if sNames[si] == "LRU" {
+				seq++
+				rank[k] = seq
+			} else {
+				rank[k]++
+			}
+		}
+		b.R.Count("reads.stale_serves_counted", int64(more))
 	}
 	// sometimes long-expired entries are present as well: the cycle purges them first, eviction is judged on what is left
 	nDead := 0
@@ -1354,7 +1373,7 @@ func c11RestoreOnly(b *Batch, idx int) {
 				}
 				parked = true
 				src := newBackend(kind, cache.Config{TimeToLive: cache.UnlimitedTTL})
-				n := 2 + rng.Intn(8)
+				n := 2 + rng.Intn(30)
 				withExpiry := rng.Intn(2) == 0 // the entries arrive with their own (past) expiry instead of being expired here
 				for i := 0; i < n; i++ {
 					if withExpiry {
@@ -1367,7 +1386,16 @@ func c11RestoreOnly(b *Batch, idx int) {
 				if _, err := src.Dump(&buf); err != nil {
 					return
 				}
-				if _, err := be.Restore(&buf); err != nil {
+				if withExpiry && rng.Intn(2) == 0 {
+					// the stream breaks off in the middle: what was restored before the error is in the cache (with its expiry)
+					cut := buf.Len() * (40 + rng.Intn(50)) / 100
+					got, err := be.Restore(bytes.NewReader(buf.Bytes()[:cut]))
+					if err == nil || got == 0 || be.Len() == 0 {
+						return // nothing (or everything) arrived: not the case aimed at
+					}
+					n = be.Len()
+					b.R.Count("restore_only.truncated_streams", 1)
+				} else if _, err := be.Restore(&buf); err != nil {
 					return
 				}
 				if !withExpiry {
